@@ -169,7 +169,7 @@ def build() -> Inventory:
                     continue
                 name = f"{m.name}:{q}.{tgt}"
                 mk = _is_mutable_value(val)
-                if ann is not None and "ClassVar" in ann:
+                if ann is not None and ("ClassVar" in ann or (is_pyd and "Final" in ann)):  # pydantic treats Final[...] = v as a class variable
                     mutable = mk is not None or any(t in ann for t in ("Dict", "List", "Set", "dict", "list", "set")) or (
                         val is not None and not isinstance(val, ast.Constant))
                     inv.entry(name, "classvar", bool(mutable), "class-body")
